@@ -22,11 +22,18 @@ package main
 //	if ..., err = f(i); err != nil { err = fmt.Errorf("no %w"); return }
 //	                                      ->  ... <- imaperr E_generic (f) ;;   (the callee's error is replaced)
 //	switch / else-if chains               ->  one flat `if .. else if ..` expression (no bind per level)
+//	if x := e; c { ... }                  ->  x := e; if c { ... }   (x stays declared: a later redeclaration is refused)
+//	bs[a:b] with constant bounds          ->  firstn (b-a) (skipn a bs), accepted only inside the constant length bs was read with
 //	a callee listed as abstract           ->  a Section Variable typed from the callee's Go declaration
 //	                                          (`Z -> IM T`; a pointer result *T is the record T: the callee is assumed to
 //	                                          return a non-nil pointer on success, which the translation of that callee
 //	                                          checks when it is itself translated in another section)
 //	PSITableID.Type()                     ->  the if-chain over the table id with the strings as ASCII code lists
+//
+// Not translated (run-time slice bounds, a shadowed variable, the address of a local slice): newDescriptorExtension,
+// newDescriptorISO639LanguageAndAudioType; parseDVBTime (float64 arithmetic: C15 keeps that boundary).  They stay Section
+// Variables of the functions that call them.  The end of Gen/PsiGen.v defines the tactics psigen_cbv / psigen_cbn over the
+// setters and projections this file uses, so that a proof never names a setter a change of the source may remove.
 //
 // Each section is closed before the next one opens, so a definition is generalised over exactly the abstract callees
 // it (transitively) uses: a new callee in the Go source changes the type of the definition and the equality lemma
